@@ -281,6 +281,21 @@ def expand_atoms(fa: FuncAnalysis, atoms: List[Tuple[ast.AST, bool]], depth: int
                                 out += new
                                 nxt += new
                     continue
+                elif len(defs) > 1 and fa.cfg.has_node(a) and all(isinstance(d_.value, ast.Constant) and isinstance(d_.value.value, bool) for d_ in defs) and sum(1 for d_ in defs if d_.value.value == pol) == 1 and not any(isinstance(n_, ast.Name) and n_.id == a.id and isinstance(n_.ctx, ast.Store) and not any(n_ is d_.targets[0] for d_ in defs) for n_ in ast.walk(fa.fi.node)):
+                    # found = False .. found = True .. found = False: every definition is a boolean constant and only one has
+                    # the value seen by the test - the conditions under which that one is made hold (as far as they speak of
+                    # names that are bound once)
+                    the = next(d_ for d_ in defs if d_.value.value == pol)
+                    if fa.cfg.has_node(the):
+                        once = {nm for nm in fa.locals if sum(1 for n_ in ast.walk(fa.fi.node) if isinstance(n_, ast.Name) and n_.id == nm and isinstance(n_.ctx, (ast.Store, ast.Del))) <= 1} | set(fa.fi.params)
+                        new = []
+                        for x, p in fa.cfg.expr_facts(the):
+                            nm_ = {n_.id for n_ in ast.walk(x) if isinstance(n_, ast.Name)}
+                            if all(n_ in once or n_ not in fa.locals for n_ in nm_):
+                                new.append(norm_atom(x, p))
+                        out += new
+                        nxt += new
+                    continue
                 elif len(defs) > 1 and fa.cfg.has_node(a):
                     # several assignments (flag = A; flag = flag or B): the one that reaches this test
                     rd = fa._rd_in.get(fa.cfg.node_of(a), {}).get(a.id)
@@ -865,8 +880,10 @@ def _call_events(ctx: TermCtx, fi: FuncInfo, pred: Callable[[str], bool], depth:
         nm = f.id if isinstance(f, ast.Name) else (f.attr if isinstance(f, ast.Attribute) else None)
         node = fa.cfg.node_of(c)
         if nm is not None and pred(nm):
-            args = tuple(strip_sites(fa.term_of(a)) for a in c.args)
-            kws = tuple((k.arg, strip_sites(fa.term_of(k.value))) for k in c.keywords)
+            from .terms import splice_literals as _splice
+
+            args = tuple(_splice(strip_sites(fa.term_of(a))) for a in c.args)
+            kws = tuple((k.arg, _splice(strip_sites(fa.term_of(k.value)))) for k in c.keywords)
             recv = None
             if isinstance(f, ast.Attribute):
                 try:
